@@ -336,29 +336,31 @@ def check_views(ctx, unit):
                 continue
             subs = sorted([n for n in f.events() if n.kind == "ArraySubscriptExpr"
                            and path(n.children[0]) and path(n.children[0])[-1] == "_pointer"], key=lambda n: n.loc)
+            runs = {}
             for k, n in enumerate(subs):
-                idx = n.children[1].strip()
+                idx = n.children[1]
                 base = path(n.children[0])
                 facts = flow.facts_at(f, n.id)
-                ok, why = False, "no dominating bound on the index"
                 lens_equal = any(_eq_lengths(c, t) for c, t in facts)
-                for cond, truth in facts:
-                    for x in cond.walk():
-                        if x.kind != "BinaryOperator" or x.op not in ("<", ">"):
-                            continue
-                        l, r = x.children[0].strip(), x.children[1].strip()
-                        if x.op == "<" and truth and canon(l) == canon(idx) and path(r) and path(r)[-1] == "_length":
-                            if path(r)[:-1] == base[:-1] or (path(r) == ("this", "_length") and lens_equal):
-                                ok, why = True, "index < %s" % ".".join(path(r))
-                        if x.op == ">" and truth and idx.kind == "BinaryOperator" and idx.op == "-" and \
-                                canon(idx.children[0]) == canon(l) and r.cv() == 0 and idx.children[1].strip().cv() == 1:
-                            # i counts down from _length
-                            iv = l
-                            init = RA.local_inits(f).get(iv.d["d"]) if iv.kind == "DeclRefExpr" else None
-                            if init is not None and path(init) == ("this", "_length"):
-                                ok, why = True, "index = i-1 with 0 < i <= _length"
+                owners = {base[:-1]} | ({("this",)} if lens_equal else set())
+                key = tuple(sorted(owners))
+                if key not in runs:
+                    def is_len(x, owners=owners):
+                        x = std_unwrap(x)
+                        px = path(x)
+                        if px and px[-1] == "_length" and px[:-1] in owners and x.kind == "MemberExpr":
+                            return True
+                        if x.kind == "CXXMemberCallExpr" and x.callee and x.callee["n"] == "size" and x.callee.get("cls") == VIEW:
+                            po = path(x.child("obj"))
+                            return po in owners
+                        return False
+                    from .relbounds import RelBounds
+                    runs[key] = RelBounds(f, is_len).run()
+                ok, why = runs[key].index_ok(n, idx)
+                if ok is None:
+                    ok = True
                 ctx.inst("B.view-subscript-bounded", "%s: _pointer[] #%d" % (f.sig, k + 1), ok, n.loc,
-                         "subscript %s: %s" % (canon(idx), why), f)
+                         "subscript %s: %s, L = %s._length (relational bounds analysis)" % (canon(idx), why, ".".join(base[:-1])), f)
         for f in fns:
             if f.name == "sub_string":
                 pids = {p["d"] for p in f.params()}
@@ -391,7 +393,7 @@ def check_views(ctx, unit):
                         rel = flow.fact_relation(cond, truth)
                         if rel is None or rel[1] not in ("<=", "<"):
                             continue
-                        a, b = std_unwrap(rel[0]), std_unwrap(rel[2])
+                        a, b = std_unwrap(RA.resolve_local(f, rel[0])), std_unwrap(RA.resolve_local(f, rel[2]))
                         # other.size() <= this->size()
                         def is_size_of(x, who):
                             if not (x.kind == "CXXMemberCallExpr" and x.callee and x.callee["n"] == "size"):
